@@ -178,8 +178,11 @@ def domainvalidLoop : List Byte → Nat → Option Nat → Option (Nat × Option
   | c :: rest, i, dt =>
     if !(isAlnum c || c == DOT || c == DASH) then none
     else if c == DOT then
-      let lastdt := dt.getD 0
-      if i - lastdt > 64 then none
+      -- `h - ((dt == NULL) ? host : dt + 1) > 63`: no label longer than 63
+      let start := match dt with
+        | none => 0
+        | some d => d + 1
+      if i - start > Gen.spfDomainvalidMaxLabel then none
       else match rest with
         | c2 :: _ => if c2 == DOT then none else domainvalidLoop rest (i + 1) (some i)
         | [] => domainvalidLoop rest (i + 1) (some i)
